@@ -77,3 +77,33 @@ Theorem C04_update_no_panic :
     snd (stump_update HO true filler s dels adds ts pf) <> Panic.
 Proof. exact stump_update_no_panic. Qed.
 Print Assumptions C04_update_no_panic.
+
+(** ** Whole entry points (Proofs/TotalEntry.v): for ARBITRARY untrusted input against any state of at
+    most 2^63 leaves each verifier entry point returns accept or reject - no index panic, and the loop
+    ends within its proved iteration bound ([decided o] : [o] is [Ok _] or [Err]) *)
+From Utreexo Require Import Model.MapRead Proofs.TotalEntry.
+
+Theorem C04_Verify_total : forall (H : Type) (HO : ops H) (s : stump H) hs ts pf,
+  st_n s <= 2 ^ 63 -> decided (Verify HO true s hs ts pf).
+Proof. exact Verify_decided. Qed.
+Print Assumptions C04_Verify_total.
+
+Theorem C04_PollardVerify_total : forall (H : Type) (HO : ops H) (s : stump H) hs ts pf,
+  st_n s <= 2 ^ 63 -> decided (PollardVerify HO true s hs ts pf).
+Proof. exact PollardVerify_decided. Qed.
+Print Assumptions C04_PollardVerify_total.
+
+Theorem C04_MapVerify_total : forall (H : Type) (HO : ops H) (m : mstate H) hs ts pf,
+  ms_n m <= 2 ^ 63 -> decided (map_verify HO m hs ts pf).
+Proof. exact map_verify_decided. Qed.
+Print Assumptions C04_MapVerify_total.
+
+Theorem C04_VerifyPartialProof_total : forall (H : Type) (HO : ops H) (m : mstate H) ts hs pf,
+  ms_n m <= 2 ^ 63 -> decided (VerifyPartialProof HO m ts hs pf).
+Proof. exact VerifyPartialProof_decided. Qed.
+Print Assumptions C04_VerifyPartialProof_total.
+
+Theorem C04_Update_total : forall (H : Type) (HO : ops H) filler (s : stump H) dels adds ts pf,
+  st_n s <= 2 ^ 63 -> decided (snd (stump_update HO true filler s dels adds ts pf)).
+Proof. exact stump_update_decided. Qed.
+Print Assumptions C04_Update_total.
